@@ -1,0 +1,8 @@
+//go:build verif
+
+// Machine-checked contracts for package router_address (comment-only file;
+// never compiled into the library).  Read by /verif/engine (gvc).
+
+package router_address
+
+//@ loop parseTransportOptions 0: bounded 3
